@@ -901,3 +901,268 @@ example : envOk 3
 example : envOk 1000 nodeEnv = false := by decide
 
 end Utv.C18
+
+namespace Utv.C18
+
+/-! ### inputs deeper than the limit — in particular cyclic ones — are rejected -/
+
+theorem rdepthL_mem (rs : List Res) (r : Res) (h : r ∈ rs) : rdepth r ≤ rdepthL rs := by
+  induction rs with
+  | nil => cases h
+  | cons x xs ih =>
+    simp only [rdepthL]
+    rcases List.mem_cons.1 h with rfl | hm
+    · exact Nat.le_max_left _ _
+    · exact Nat.le_trans (ih hm) (Nat.le_max_right _ _)
+
+theorem rdepthF_mem (rs : List (String × Res)) (s : String) (r : Res) (h : (s, r) ∈ rs) : rdepth r ≤ rdepthF rs := by
+  induction rs with
+  | nil => cases h
+  | cons x xs ih =>
+    rcases x with ⟨s', r'⟩
+    simp only [rdepthF]
+    rcases List.mem_cons.1 h with he | hm
+    · cases he; exact Nat.le_max_left _ _
+    · exact Nat.le_trans (ih hm) (Nat.le_max_right _ _)
+
+theorem rdepthK_mem (rs : List (Key × Res)) (s : Key) (r : Res) (h : (s, r) ∈ rs) : rdepth r ≤ rdepthK rs := by
+  induction rs with
+  | nil => cases h
+  | cons x xs ih =>
+    rcases x with ⟨s', r'⟩
+    simp only [rdepthK]
+    rcases List.mem_cons.1 h with he | hm
+    · cases he; exact Nat.le_max_left _ _
+    · exact Nat.le_trans (ih hm) (Nat.le_max_right _ _)
+
+/-- an accepted result is at least as deep as the declared types force the input to be -/
+def ForcedOk (E : Env) (rec : Parser) : Prop :=
+  ∀ T v n, Forced E T v n → ∀ c r, (rec c T v).1 = .ok r → n ≤ rdepth r
+
+section
+variable {W : World} {Q : Quirks} {E : Env} {rec : Parser}
+
+theorem parseField_ok (c : Ctx) (t : Ty) (v : Val) (r : Res) (h : (parseField Q rec c t v).1 = .ok r) :
+    ∃ c', (rec c' t v).1 = .ok r := by
+  obtain ⟨c', _, h2⟩ := inCtx_ok _ _ r h
+  exact ⟨c', h2⟩
+
+theorem items_forced (hrec : ForcedOk E rec) (c : Ctx) (t : Ty) (vs : List Val) (rs : List Res)
+    (h : (parseItems Q rec c t vs).1 = .ok rs) (x : Val) (hx : x ∈ vs) (n : Nat) (hf : Forced E t x n) :
+    n ≤ rdepthL rs := by
+  obtain ⟨j, hj⟩ := mem_indexed vs 0 x hx
+  obtain ⟨r, hr, hp⟩ := seqM_ok_mem _ _ rs h (j, x) hj
+  obtain ⟨c', _, h2⟩ := inCtx_ok _ _ r hp
+  exact Nat.le_trans (hrec t x n hf c' r h2) (rdepthL_mem rs r hr)
+
+theorem union_ok_mem (c : Ctx) (ts : List Ty) (v : Val) (r : Res) (hv : isNoneVal v = false)
+    (h : (parseUnion Q rec c ts v).1 = .ok r) : ∃ t ∈ ts, ∃ c', (rec c' t v).1 = .ok r := by
+  have hstage : ∀ m f, (unionStage Q rec c ts v m f).1 = .ok r → ∃ t ∈ ts, ∃ c', (rec c' t v).1 = .ok r := by
+    intro m f hs
+    obtain ⟨t, ht, hp⟩ := tryAll_ok_mem _ ts f r hs
+    obtain ⟨c', _, h2⟩ := inCtx_ok _ _ r hp
+    exact ⟨t, ht, c', h2⟩
+  simp only [parseUnion, hv, Bool.false_and, Bool.false_eq_true, if_false] at h
+  rcases (orElse_ok _ _ r).1 h with h1 | ⟨f, _, h2⟩
+  · split at h1
+    · exact hstage _ _ h1
+    · cases h1
+  · rcases (orElse_ok _ _ r).1 h2 with h3 | ⟨g, _, h4⟩
+    · split at h3
+      · exact hstage _ _ h3
+      · cases h3
+    · exact hstage _ _ h4
+
+theorem step_forced (hrec : ForcedOk E rec) : ForcedOk E (step W Q E rec) := by
+  intro T v n hf c r h
+  cases hf with
+  | zero => exact Nat.zero_le _
+  | leafBad v n hv =>
+    simp only [step] at h
+    cases v <;> simp_all [isTok]
+  | noneBad v n hv =>
+    simp only [step] at h
+    cases v <;> simp_all [isNoneVal]
+  | dataBad k v n hbad =>
+    simp only [step] at h
+    cases hk : E[k]? with
+    | none => simp [hk] at h
+    | some cd =>
+      simp only [hk] at h
+      rcases hbad with hb | hb
+      · split at h
+        · cases h
+        · cases v <;> simp_all [isDict]
+      · simp [fieldsOf, hk] at hb
+  | data k fields kvs f ft sub n hfl hlook hkey hsub =>
+    simp only [step] at h
+    cases hk : E[k]? with
+    | none => simp [hk] at h
+    | some cd =>
+      simp only [fieldsOf, hk, Option.map_some, Option.some.injEq] at hfl
+      subst hfl
+      simp only [hk] at h
+      split at h
+      · cases h
+      · obtain ⟨fs, hfs, rfl⟩ := (mapOut_fst_ok _ _ r).1 h
+        simp only [rdepth]
+        apply Nat.succ_le_succ
+        split at hfs
+        · -- data-first
+          simp only [parseDF] at hfs
+          obtain ⟨rs, hrs, rfl⟩ := (mapOut_fst_ok _ _ fs).1 hfs
+          obtain ⟨b, hb, hp⟩ := seqM_ok_mem _ _ rs hrs (f, ft, sub) (knownItems_mem _ _ f ft sub hlook hkey)
+          obtain ⟨r', hr', rfl⟩ := (mapOut_fst_ok _ _ b).1 hp
+          obtain ⟨c', hc'⟩ := parseField_ok _ _ _ _ hr'
+          have hkeys : rs.map Prod.fst = (knownItems cd.fields kvs).map (fun it => it.1) :=
+            seqM_map_fst _ (fun it => it.1) (by
+              intro it b hb
+              obtain ⟨r, _, rfl⟩ := (mapOut_fst_ok _ _ b).1 hb
+              rfl) _ rs hrs
+          have hnd : (rs.map Prod.fst).Nodup := by rw [hkeys]; exact dedupFst_nodup _
+          have hl := lookup_of_mem_nodup rs f r' hnd hb
+          have hmem : (f, r') ∈ cd.fields.map fun ft => (ft.1, (rs.lookup ft.1).getD Res.none) :=
+            List.mem_map.2 ⟨(f, ft), lookup_some_mem _ _ _ hlook, by simp [hl]⟩
+          exact Nat.le_trans (hrec ft sub n hsub c' r' hc') (rdepthF_mem _ f r' hmem)
+        · -- field-first
+          simp only [parseFF] at hfs
+          obtain ⟨b, hb, hp⟩ := seqM_ok_mem _ _ fs hfs (f, ft) (lookup_some_mem _ _ _ hlook)
+          simp only [hkey] at hp
+          obtain ⟨r', hr', rfl⟩ := (mapOut_fst_ok _ _ b).1 hp
+          obtain ⟨c', hc'⟩ := parseField_ok _ _ _ _ hr'
+          exact Nat.le_trans (hrec ft sub n hsub c' r' hc') (rdepthF_mem _ f r' hb)
+  | listMem t vs x n hx hsub =>
+    simp only [step, wrapSeq] at h
+    obtain ⟨rs, hrs, rfl⟩ := (mapOut_fst_ok _ _ r).1 h
+    simpa [rdepth] using items_forced hrec c t vs rs hrs x hx n hsub
+  | tupleMem t vs x n hx hsub =>
+    simp only [step, wrapSeq] at h
+    obtain ⟨rs, hrs, rfl⟩ := (mapOut_fst_ok _ _ r).1 h
+    simpa [rdepth] using items_forced hrec c t vs rs hrs x hx n hsub
+  | listWrap t v n hl hne hsub =>
+    simp only [step] at h
+    cases hw : wrapSeq c.mode v with
+    | none => simp [hw] at h
+    | some vs =>
+      simp only [hw] at h
+      obtain ⟨rs, hrs, rfl⟩ := (mapOut_fst_ok _ _ r).1 h
+      have hx : v ∈ vs := wrapSeq_mem _ v vs hl hne hw
+      simpa [rdepth] using items_forced hrec c t vs rs hrs v hx n hsub
+  | tupleWrap t v n hl hne hsub =>
+    simp only [step] at h
+    cases hw : wrapSeq c.mode v with
+    | none => simp [hw] at h
+    | some vs =>
+      simp only [hw] at h
+      obtain ⟨rs, hrs, rfl⟩ := (mapOut_fst_ok _ _ r).1 h
+      have hx : v ∈ vs := wrapSeq_mem _ v vs hl hne hw
+      simpa [rdepth] using items_forced hrec c t vs rs hrs v hx n hsub
+  | dictMem kt t kvs key x n hx hsub =>
+    simp only [step] at h
+    obtain ⟨rs, hrs, rfl⟩ := (mapOut_fst_ok _ _ r).1 h
+    simp only [parseEntries] at hrs
+    obtain ⟨b, hb, hp⟩ := seqM_ok_mem _ _ rs hrs (key, x) hx
+    split at hp
+    · cases hp
+    · obtain ⟨r', hr', rfl⟩ := (mapOut_fst_ok _ _ b).1 hp
+      obtain ⟨c', _, h2⟩ := inCtx_ok _ _ r' hr'
+      simp only [rdepth]
+      exact Nat.le_trans (hrec t x n hsub c' r' h2) (rdepthK_mem rs key r' hb)
+  | dictBad kt t v n hv =>
+    simp only [step] at h
+    cases v <;> simp_all [isDict]
+  | union ts v n hv hall =>
+    simp only [step] at h
+    obtain ⟨t, ht, c', hc'⟩ := union_ok_mem c ts v r hv h
+    exact hrec t v n (hall t ht) c' r hc'
+
+end
+
+theorem parse_forced (W : World) (Q : Quirks) (E : Env) (fuel : Nat) : ForcedOk E (parse W Q E fuel) := by
+  induction fuel with
+  | zero => intro T v n _ c r h; simp [parse] at h
+  | succ m ih => exact step_forced ih
+
+theorem fieldsOf_withLimit (d : Nat) (E : Env) (k : Nat) : fieldsOf (withLimit d E) k = fieldsOf E k := by
+  simp only [fieldsOf, withLimit_get, Option.map_map]
+  rfl
+
+theorem forced_withLimit (d : Nat) (E : Env) (T : Ty) (v : Val) (n : Nat) (h : Forced E T v n) :
+    Forced (withLimit d E) T v n := by
+  induction h with
+  | zero T v => exact .zero T v
+  | leafBad v n hv => exact .leafBad v n hv
+  | noneBad v n hv => exact .noneBad v n hv
+  | dataBad k v n hb => exact .dataBad k v n (by rw [fieldsOf_withLimit]; exact hb)
+  | data k fields kvs f ft sub n hfl hlook hkey _ ih =>
+    exact .data k fields kvs f ft sub n (by rw [fieldsOf_withLimit]; exact hfl) hlook hkey ih
+  | listMem t vs x n hx _ ih => exact .listMem t vs x n hx ih
+  | tupleMem t vs x n hx _ ih => exact .tupleMem t vs x n hx ih
+  | listWrap t v n hl hne _ ih => exact .listWrap t v n hl hne ih
+  | tupleWrap t v n hl hne _ ih => exact .tupleWrap t v n hl hne ih
+  | dictMem kt t kvs key x n hx _ ih => exact .dictMem kt t kvs key x n hx ih
+  | dictBad kt t v n hv => exact .dictBad kt t v n hv
+  | union ts v n hv _ ih => exact .union ts v n hv ih
+
+/-- **Inputs deeper than the limit are rejected**: if the declared types force more than `d` nested data-class
+levels on the input (whatever the positions — the spine may run through list indices, mapping keys and union
+branches), the parser with `max_depth = d` does not accept it.  Stated on the *input*, independently of any
+result. -/
+theorem C18_deep_rejected (W : World) (Q : Quirks) (hQ : Q.falsyRoute = false) (hR : Q.rootLevel = false)
+    (E : Env) (d : Nat) (hd : d ≠ 0) (fuel : Nat) (via : Bool) (k : Nat) (v : Val) (n : Nat)
+    (hf : Forced E (.data k) v n) (hn : d < n) :
+    (parseTop W Q (withLimit d E) fuel via k v).1.isOk = false := by
+  cases h : (parseTop W Q (withLimit d E) fuel via k v).1 with
+  | err f => rfl
+  | ok r =>
+    exfalso
+    have h1 := ((C18_depth_exact W Q hQ hR E d hd fuel via k v).1 r h).1
+    simp only [parseTop] at h
+    have h2 := parse_forced W Q (withLimit d E) fuel (.data k) v n (forced_withLimit d E _ v n hf) _ r h
+    omega
+
+/-- `body^[n] stub`: the `n`-th unfolding of a cyclic object whose cycle is `body` -/
+def unfoldCycle (body : Val → Val) (stub : Val) : Nat → Val
+  | 0 => stub
+  | n + 1 => body (unfoldCycle body stub n)
+
+/-- **Cyclic inputs are always rejected.**  A cyclic object is the limit of its unfoldings
+`stub, body stub, body (body stub), …`; if one turn of the cycle passes through (at least) one more data-class
+level as the declarations read it (`hbody`: from a copy `body y` of the object to the copy that contains it),
+then with `max_depth = d` every unfolding deeper than `d + 1` is rejected — for every `d`, every stub, every
+fuel: however far the parser is allowed to look, it never accepts. -/
+theorem C18_cyclic_rejected (W : World) (Q : Quirks) (hQ : Q.falsyRoute = false) (hR : Q.rootLevel = false)
+    (E : Env) (k : Nat) (body : Val → Val)
+    (hbody : ∀ y m, Forced E (.data k) (body y) m → Forced E (.data k) (body (body y)) (m + 1))
+    (d : Nat) (hd : d ≠ 0) (fuel : Nat) (via : Bool) (stub : Val) (n : Nat) (hn : d < n) :
+    (parseTop W Q (withLimit d E) fuel via k (unfoldCycle body stub (n + 1))).1.isOk = false := by
+  have hf : ∀ m, Forced E (.data k) (unfoldCycle body stub (m + 1)) m := by
+    intro m
+    induction m with
+    | zero => exact .zero _ _
+    | succ m ih => exact hbody _ m ih
+  exact C18_deep_rejected W Q hQ hR E d hd fuel via k _ n (hf n) hn
+
+/-- non-vacuity of `hbody`: the cycle `data['nx'] = data` of the test-suite, read through `Optional['Node']` … -/
+example : ∀ y m, Forced nodeEnv (.data 0) (.dict [(.str "v", .tok 0), (.str "nx", y)]) m →
+    Forced nodeEnv (.data 0)
+      (.dict [(.str "v", .tok 0), (.str "nx", .dict [(.str "v", .tok 0), (.str "nx", y)])]) (m + 1) := by
+  intro y m h
+  refine .data 0 _ _ "nx" (.union [.data 0, .none]) _ m rfl rfl rfl ?_
+  refine .union _ _ m rfl ?_
+  intro t ht
+  simp only [List.mem_cons, List.mem_nil_iff, or_false] at ht
+  rcases ht with rfl | rfl
+  · exact h
+  · exact .noneBad _ m rfl
+
+/-- … and a cycle through list index 0 (`data['kids'] = [data]`) -/
+example : ∀ y m,
+    Forced [{ fields := [("kids", .list (.data 0))] }] (.data 0) (.dict [(.str "kids", .list [y])]) m →
+    Forced [{ fields := [("kids", .list (.data 0))] }] (.data 0)
+      (.dict [(.str "kids", .list [.dict [(.str "kids", .list [y])]])]) (m + 1) := by
+  intro y m h
+  refine .data 0 _ _ "kids" (.list (.data 0)) _ m rfl rfl rfl ?_
+  exact .listMem _ _ _ m (by simp) h
+
+end Utv.C18
